@@ -28,6 +28,7 @@ func (p *luaContPool) get() *LuaCont {
 	p.next--
 	c := p.conts[p.next]
 	p.conts[p.next] = nil
+	verifPoolLuaCont(c)
 	return c
 }
 
